@@ -38,6 +38,46 @@ def idle_jumps() -> int:
     return _idle["jumps"]
 
 
+def foreign_time_locale() -> str:
+    """Make a non-English locale the process's LC_TIME locale (as desktop programs and many services do with setlocale).  Uses an
+    installed one when there is one; otherwise derives one from the C.utf8 locale files with the weekday and month names
+    replaced by same-length foreign ones (scratch copy under the system temp directory, removed at exit).  -> name or ''."""
+    import atexit
+    import locale
+    import shutil
+    import tempfile
+
+    probe = (2024, 1, 1, 0, 0, 0, 0, 1, 0)      # a Monday
+    for name in ("de_DE.UTF-8", "fr_FR.UTF-8", "es_ES.UTF-8", "fi_FI.UTF-8", "ru_RU.UTF-8"):
+        try:
+            locale.setlocale(locale.LC_TIME, name)
+            if _time.strftime("%A", probe) != "Monday":
+                return name
+        except locale.Error:
+            continue
+    source = next((p for p in ("/usr/lib/locale/C.utf8", "/usr/lib/locale/C.UTF-8") if os.path.isdir(p)), None)
+    if source is None:
+        return ""
+    root = tempfile.mkdtemp(prefix="vf-locale-")
+    atexit.register(shutil.rmtree, root, True)
+    target = os.path.join(root, "xx_XX.utf8")
+    shutil.copytree(source, target)
+    path = os.path.join(target, "LC_TIME")
+    blob = open(path, "rb").read()
+    names = {"Monday": "Montag", "Tuesday": "Tiistai", "Wednesday": "Miercoles", "Thursday": "Donderda", "Friday": "Fredag", "Saturday": "Lauantai",
+             "Sunday": "Sondag", "January": "Januari", "February": "Februari", "August": "Agosto", "October": "Oktober", "December": "Dezember"}
+    for english, foreign in names.items():
+        for codec in ("ascii", "utf-32-le", "utf-32-be"):
+            blob = blob.replace(english.encode(codec), foreign.encode(codec))
+    open(path, "wb").write(blob)
+    os.environ["LOCPATH"] = root
+    try:
+        locale.setlocale(locale.LC_TIME, "xx_XX.UTF-8")
+    except locale.Error:
+        return ""
+    return "xx_XX.UTF-8 (derived)" if _time.strftime("%A", probe) != "Monday" else ""
+
+
 async def wait_real(event, timeout_s: float) -> bool:
     """Wait for an asyncio.Event under a limit on the real clock (immune to idle() jumps)."""
     import asyncio
